@@ -1,5 +1,5 @@
 """C02 - transforming a shape moves points and landmarks as one and mutates nothing."""
-import re
+import math
 
 import numpy as np
 from hypothesis import strategies as st
@@ -12,22 +12,40 @@ from menpo.transform.piecewiseaffine.base import TriangleContainmentError
 
 PROPERTY = "C02"
 RULE = (
-    "Hypothesis draws a shape (8 classes, 2-D/3-D, 3-9 points, 0-3 landmark groups each of any shape class) and a "
-    "transform (12 homogeneous-family classes incl. alignments, TransformChain of 1-3 members, WithDims by list / int / "
-    "mask, ThinPlateSplines with 3 kernels, CachedPWA / PythonPWA; for piecewise-affine transforms all shape and "
-    "landmark points are rebuilt as convex combinations of source triangles so they lie in the domain) and a batch "
-    "size. Non-trivial: the transform moves at least one point and the shape has a landmark group or carries "
-    "structure (trilist / adjacency / labels / colours / texture). Distinct = distinct canonical-JSON digest."
+    "Hypothesis draws a shape (8 classes, 2-D/3-D, 3-9 points or a degenerate 0/1/2-point shape, possibly an empty "
+    "triangle list, 0-3 landmark groups each of any shape class - groups may be empty and may carry 0-2 landmark "
+    "groups of their own; coordinates float64, float32 or int64, magnitude ~10 or ~1e6) and a transform (12 "
+    "homogeneous-family classes incl. alignments, TransformChain of 1-3 homogeneous members or a heterogeneous chain "
+    "with TPS / WithDims / nested chains / a leading piecewise-affine member, WithDims by list / int / mask, "
+    "ThinPlateSplines with 3 kernels, CachedPWA / PythonPWA; for piecewise-affine maps all shape and landmark points "
+    "are rebuilt as convex combinations of source triangles so they lie in the domain) and a batch size. "
+    "Non-trivial: the transform moves at least one point and the shape has a landmark group or carries structure "
+    "(trilist / adjacency / labels / colours / texture). Clause refusal: sequences of applications of one "
+    "piecewise-affine transform (or a chain led by one) to in-domain and partly out-of-domain shapes / arrays. "
+    "Clause about_centre: the *_about_centre factories built from a shape and applied to it. "
+    "Distinct = distinct canonical-JSON digest."
 )
 ASSUMPTIONS = [
     "reference evaluation: explicit homogeneous product from independently built matrices for the 7 plain classes, from "
-    "a snapshot of h_matrix for alignment classes (their fits are C07's subject), column slicing for WithDims; for "
-    "TPS / PWA the reference is the same transform applied to the bare array (their maps are C07/C09's subject)",
+    "a snapshot of h_matrix for alignment classes (their fits are C07's subject), column slicing for WithDims, "
+    "sequential evaluation member by member for chains (a member without an independent reference is evaluated by a "
+    "freshly built twin of that member alone); for bare TPS / PWA the reference is the same transform applied to the "
+    "bare array (their maps are C07/C09's subject)",
     "transform caches (CachedPWA._applied_points/_iab) may change; parameters may not",
+    "numbers are not compared with the reference within 1e-4 (relative) of a pole of a perspective map",
+    "alignment classes are affine by contract: the reference ignores the round-off (1e-16) in the bottom row of a fitted "
+    "h_matrix; reference tolerance is relative to the larger of the result and the terms summed (cancellation)",
+    "coordinates ~1e6 only for maps without perspective terms, splines or triangulated domains (conditioning)",
+    "float32 coordinates: reference comparison at 1e-5 relative (no dtype assertion); shape vs bare array stays tight",
+    "copy() of a shape is trusted when judging _apply_inplace (C06's subject)",
 ]
 
-_PTS = re.compile(r"^(\.points|\._landmarks\._landmark_groups\[.*\]\.points)$")
 _CACHE = ("._applied_points", "._iab")
+MESH_KINDS = ("TriMesh", "ColouredTriMesh", "TexturedTriMesh")
+PWA_KINDS = ("CachedPWA", "PythonPWA")
+GROUP_NAMES = ["g", "PTS", "left eye", "ü", "a.b", "*", "0"]
+BIG_SCALE = 131072.0  # 2**17: extent 10 -> ~1.3e6, exact in binary
+BIG_OFFSET = 1048576.0  # 2**20
 
 
 def _tok(a):
@@ -35,11 +53,11 @@ def _tok(a):
     return (str(a.dtype), a.shape, a.tobytes())
 
 
-def structure_digest(o, depth=0):
+def structure_digest(o):
     """Everything a shape carries besides coordinates, read through the PUBLIC API only (so that the check does not
     depend on private attribute names): class, point count, triangle list, adjacency, label -> mask dict in order,
-    colours, texture coordinates, texture pixels, root / predecessors, and recursively the landmark groups
-    (names in order, classes, structure)."""
+    colours, texture coordinates, texture pixels, root / predecessors, and recursively (any depth) the landmark
+    groups (names in order, classes, structure)."""
     out = [("class", type(o).__name__), ("n_points", int(o.n_points))]
     if hasattr(o, "trilist"):
         out.append(("trilist", _tok(o.trilist)))
@@ -59,34 +77,292 @@ def structure_digest(o, depth=0):
     if hasattr(o, "root_vertex"):
         out.append(("root_vertex", int(o.root_vertex)))
         out.append(("predecessors", tuple(o.predecessors_list)))
-    if depth == 0 and getattr(o, "has_landmarks", False):
+    if getattr(o, "has_landmarks", False):
         for nm in o.landmarks.keys():
-            out.append(("landmark:" + nm, tuple(structure_digest(o.landmarks[nm], depth + 1))))
+            out.append(("landmark:" + nm, tuple(structure_digest(o.landmarks[nm]))))
     return tuple(out)
 
 
+def group_names(shape):
+    return list(shape.landmarks.keys()) if shape.has_landmarks else []
+
+
+def all_groups(shape, prefix=""):
+    """(path, group) for every landmark group reachable from the shape, at any depth, in key order."""
+    out = []
+    for nm in group_names(shape):
+        g = shape.landmarks[nm]
+        p = prefix + "/" + nm
+        out.append((p, g))
+        out.extend(all_groups(g, p))
+    return out
+
+
+# ==============================================================================================
+# shapes: plain data + builder (own builder: degenerate sizes, empty trilists, dtypes, magnitudes, nesting)
+
+
 @st.composite
-def s_case(draw):
-    d = draw(st.sampled_from([2, 2, 3]))
-    shape = draw(objs.shape_case(d=d))
-    t = draw(objs.transform_case(d=d))
-    c = {"shape": shape, "t": t, "batch": draw(st.sampled_from([None, None, 1, 3, "n", "n+5"])),
-         # integer-typed coordinates (pixel positions) are legal: "none", the whole shape, or only its landmark groups
-         "int_coords": draw(st.sampled_from(["none", "none", "none", "all", "landmarks"])),
-         "reparam": draw(st.sampled_from(["from_vector", "set_target", "pseudoinverse"])),
-         "reparam_w": draw(st.lists(gen.q(-0.25, 0.25), min_size=16, max_size=16))}
-    if t["kind"] in ("CachedPWA", "PythonPWA"):
-        c["picks"] = draw(objs.bary_picks(40, 40))
-    return c
+def small_shape_case(draw, d):
+    """0-, 1- and 2-point shapes of every class that admits the size (graphs need a vertex, a tree needs an edge);
+    meshes get an empty triangle list."""
+    n = draw(st.sampled_from([0, 1, 1, 2]))
+    kinds = ["PointCloud"] + list(MESH_KINDS)
+    if n >= 1:
+        kinds += ["PointUndirectedGraph", "PointDirectedGraph", "LabelledPointUndirectedGraph"]
+    if n >= 2:
+        kinds += ["PointTree"]
+    kind = draw(st.sampled_from(kinds))
+    pts = draw(gen.points_case(n=n, d=d)) if n else []
+    case = {"kind": kind, "d": d, "pts": pts}
+    if kind in MESH_KINDS:
+        case["tri"] = []
+    if kind == "ColouredTriMesh":
+        case["colours"] = draw(st.lists(st.lists(gen.q(0, 1, 256), min_size=3, max_size=3), min_size=n, max_size=n))
+    if kind == "TexturedTriMesh":
+        case["tcoords"] = draw(st.lists(st.lists(gen.q(0, 1, 256), min_size=2, max_size=2), min_size=n, max_size=n))
+        case["tex"] = {"shape": [2, 3], "ch": draw(st.sampled_from([1, 3])), "seed": draw(st.integers(0, 2**16))}
+    if kind in ("PointUndirectedGraph", "LabelledPointUndirectedGraph"):
+        case["edges"] = [[0, 1]] if (n == 2 and draw(st.booleans())) else []
+    if kind == "PointDirectedGraph":
+        case["edges"] = draw(st.sampled_from([[], [[0, 1]], [[1, 0]], [[0, 1], [1, 0]]])) if n == 2 else []
+    if kind == "PointTree":
+        case["edges"] = [[0, 1]]
+        case["root"] = 0
+    if kind == "LabelledPointUndirectedGraph":
+        case["labels"] = draw(objs.label_case(n))
+    return case
 
 
-def ref_eval(tc, t_built, x):
-    """Independent evaluation of the map on an array, or None when there is no independent reference."""
+@st.composite
+def group_case(draw, d, nested):
+    """A landmark group: any shape class, sometimes degenerate (empty / 1-2 points), with 0-2 groups of its own."""
+    if draw(st.integers(0, 6)) == 0:
+        g = draw(small_shape_case(d))
+    else:
+        g = draw(objs.shape_case(d=d, with_landmarks=False, n_min=3, n_max=6))
+        if g["kind"] in MESH_KINDS and draw(st.integers(0, 9)) == 0:
+            g["tri"] = []
+    if nested:
+        k = draw(st.sampled_from([0, 1, 1, 2]))
+        names = draw(st.lists(st.sampled_from(GROUP_NAMES), min_size=k, max_size=k, unique=True))
+        g["lms"] = [[nm, draw(group_case(d, False))] for nm in names]
+    return g
+
+
+@st.composite
+def s_shape(draw, d, small_ok=True):
+    mode = draw(st.sampled_from(["flat", "flat", "nested", "nested", "nested", "small"] if small_ok else ["flat", "nested"]))
+    if mode == "small":
+        sc = draw(small_shape_case(d))
+        k = draw(st.integers(0, 2))
+        names = draw(st.lists(st.sampled_from(GROUP_NAMES), min_size=k, max_size=k, unique=True))
+        sc["lms"] = [[nm, draw(group_case(d, draw(st.booleans())))] for nm in names]
+        return sc
+    if mode == "flat":
+        sc = draw(objs.shape_case(d=d))
+    else:
+        sc = draw(objs.shape_case(d=d, with_landmarks=False))
+        k = draw(st.integers(1, 3))
+        names = draw(st.lists(st.sampled_from(GROUP_NAMES), min_size=k, max_size=k, unique=True))
+        sc["lms"] = [[nm, draw(group_case(d, True))] for nm in names]
+    if sc["kind"] in MESH_KINDS and draw(st.integers(0, 11)) == 0:
+        sc["tri"] = []
+    return sc
+
+
+def map_case(case, f, depth=0):
+    """A copy of the shape case with f(node, depth) applied to every (sub)shape."""
+    case = dict(case)
+    if "lms" in case:
+        case["lms"] = [[nm, map_case(sub, f, depth + 1)] for nm, sub in case["lms"]]
+    return f(case, depth)
+
+
+def count_points(case):
+    return len(case["pts"]) + sum(count_points(sub) for _, sub in case.get("lms", []))
+
+
+def has_empty(case):
+    return len(case["pts"]) == 0 or any(has_empty(sub) for _, sub in case.get("lms", []))
+
+
+def case_depth(case):
+    return 1 + max([case_depth(sub) for _, sub in case.get("lms", [])] or [-1]) if case.get("lms") else 0
+
+
+def build_shape(case):
+    """Fresh menpo shape from plain data.  Node flags: "dtype" in (None, "int", "f32"), "mag" in (None, "scale", "offset")."""
+    from collections import OrderedDict
+    from menpo.image import Image
+    import menpo.shape as ms
+
+    kind, d = case["kind"], case["d"]
+    pts = np.array(case["pts"], dtype=float).reshape(-1, d)
+    if case.get("mag") == "scale":
+        pts = pts * BIG_SCALE
+    elif case.get("mag") == "offset":
+        pts = pts + BIG_OFFSET
+    dt = case.get("dtype")
+    if dt == "int":
+        pts = np.round(pts)
+    elif dt == "f32":
+        pts = pts.astype(np.float32)
+    n = pts.shape[0]
+    if kind in MESH_KINDS:
+        tri = np.array(case["tri"], dtype=int).reshape(-1, 3)
+    if kind == "PointCloud":
+        s = ms.PointCloud(pts)
+    elif kind == "TriMesh":
+        s = ms.TriMesh(pts, trilist=tri)
+    elif kind == "ColouredTriMesh":
+        s = ms.ColouredTriMesh(pts, trilist=tri, colours=np.array(case["colours"], dtype=float).reshape(-1, 3))
+    elif kind == "TexturedTriMesh":
+        tex = case["tex"]
+        im = Image(np.random.RandomState(tex["seed"]).rand(tex["ch"], *tex["shape"]))
+        s = ms.TexturedTriMesh(pts, np.array(case["tcoords"], dtype=float).reshape(-1, 2), im, trilist=tri)
+    elif kind == "PointUndirectedGraph":
+        s = ms.PointUndirectedGraph(pts, objs.edges_to_adjacency(case["edges"], n, False))
+    elif kind == "PointDirectedGraph":
+        s = ms.PointDirectedGraph(pts, objs.edges_to_adjacency(case["edges"], n, True))
+    elif kind == "PointTree":
+        s = ms.PointTree(pts, objs.edges_to_adjacency(case["edges"], n, True), case["root"])
+    elif kind == "LabelledPointUndirectedGraph":
+        l2m = OrderedDict((nm, np.array(mask, dtype=bool)) for nm, mask in case["labels"])
+        s = ms.LabelledPointUndirectedGraph(pts, objs.edges_to_adjacency(case["edges"], n, False), l2m)
+    else:
+        raise ValueError(kind)
+    if dt == "int":
+        s.points = pts.astype(np.int64)  # pixel positions: menpo keeps the dtype it is given
+    for nm, sub in case.get("lms", []):
+        s.landmarks[nm] = build_shape(sub)
+    return s
+
+
+# ==============================================================================================
+# transforms: objs.transform_case plus heterogeneous chains
+
+
+@st.composite
+def mixed_chain_case(draw, d, depth=0, first=True):
+    """TransformChain whose members are of any class: homogeneous family, WithDims (the running dimension is tracked;
+    the chain ends when it drops to 1), ThinPlateSplines (2-D), a nested chain, and - only as the very first map, so
+    that its domain is known - a piecewise affine."""
+    k = draw(st.integers(1, 4 if depth == 0 else 2))
+    members, cur = [], d
+    for i in range(k):
+        opts = ["homog", "homog", "withdims"]
+        if cur == 2:
+            opts += ["tps"]
+            if first and i == 0:
+                opts += ["pwa"]
+        if depth == 0:
+            opts += ["chain", "chain"]
+        what = draw(st.sampled_from(opts))
+        if what == "homog":
+            m = draw(objs.homog_case(d=cur))
+        elif what == "withdims":
+            m = draw(objs.transform_case(d=cur, kinds=["WithDims"]))
+        elif what == "tps":
+            m = draw(objs.warp_case(kind="ThinPlateSplines"))
+        elif what == "pwa":
+            m = draw(objs.warp_case(kind=draw(st.sampled_from(PWA_KINDS))))
+        else:
+            m = draw(mixed_chain_case(cur, depth + 1, first and i == 0))
+        members.append(m)
+        cur = out_dim(m)
+        if cur not in (2, 3):
+            break
+    return {"kind": "TransformChain", "d": d, "members": members}
+
+
+def out_dim(tc):
+    if tc["kind"] == "TransformChain":
+        cur = tc["d"]
+        for m in tc["members"]:
+            cur = out_dim(m)
+        return cur
+    return objs.out_dims(tc)
+
+
+@st.composite
+def s_transform(draw, d):
+    if draw(st.integers(0, 4)) == 0:
+        return draw(mixed_chain_case(d))
+    return draw(objs.transform_case(d=d))
+
+
+def members_of(tc):
+    """The case and every member case below it."""
+    out = [tc]
+    if tc["kind"] == "TransformChain":
+        for m in tc["members"]:
+            out.extend(members_of(m))
+    return out
+
+
+def pwa_head(tc, t):
+    """(case, built transform) of the piecewise affine that receives the input first, or None."""
+    case = tc
+    while case["kind"] == "TransformChain" and case["members"]:
+        case = case["members"][0]
+    if case["kind"] not in PWA_KINDS:
+        return None
+    while isinstance(getattr(t, "transforms", None), list) and t.transforms:
+        t = t.transforms[0]
+    return case, t
+
+
+def has_perspective(tc):
+    return any(m["kind"] == "Homogeneous" and any(v != 0 for v in m["persp"]) and not m.get("identity") for m in members_of(tc))
+
+
+def magnitude_safe(tc):
+    return not has_perspective(tc) and not any(m["kind"] in PWA_KINDS + ("ThinPlateSplines",) for m in members_of(tc))
+
+
+def chain_class(tc):
+    if tc["kind"] != "TransformChain":
+        return None
+    kinds = set(m["kind"] for m in members_of(tc)[1:])
+    if kinds <= set(objs.HOMOG_KINDS):
+        return "homogeneous"
+    return "mixed" + ("+nested" if "TransformChain" in kinds else "") + ("+pwa" if kinds & set(PWA_KINDS) else "")
+
+
+def ref_apply_h(h, x, stat, affine=False):
+    """Explicit homogeneous product by loops; records in stat["minw"] how close (relatively) any point comes to the
+    pole of the map (divisor 0).  affine: the class is affine by contract, so the bottom row IS (0, .., 0, 1) (a fitted
+    alignment matrix carries round-off of 1e-16 there, which a divide would turn into 1e-9 at coordinates of 1e6)."""
+    h = np.array(h, dtype=float)
+    x = np.asarray(x, dtype=float)
+    d = h.shape[0] - 1
+    if affine:
+        h[d, :d] = 0.0
+        h[d, d] = 1.0
+    out = np.zeros((x.shape[0], d))
+    for i in range(x.shape[0]):
+        v = [sum(h[r, c] * x[i, c] for c in range(d)) + h[r, d] for r in range(d + 1)]
+        mag = sum(abs(h[d, c] * x[i, c]) for c in range(d)) + abs(h[d, d])
+        stat["minw"] = min(stat["minw"], abs(v[d]) / mag if mag > 0 else 0.0)
+        for r in range(d):
+            out[i, r] = v[r] / v[d]
+            # size of the terms that were summed (an ill-conditioned fitted matrix far from the origin cancels large
+            # terms): the rounding error of ANY evaluation order is a few ulp of this, not of the result
+            stat["amp"] = max(stat["amp"], (sum(abs(h[r, c] * x[i, c]) for c in range(d)) + abs(h[r, d])) / abs(v[d]) if v[d] else 0.0)
+    return out
+
+
+def ref_eval(tc, t_built, x, stat):
+    """Independent evaluation of the map on an array, or None when there is no independent reference.  t_built (the
+    transform under test, only read for the fitted matrix of alignment members) may be None: a twin is built."""
     kind = tc["kind"]
     if kind in objs.PLAIN_HOMOG_KINDS:
-        return objs.ref_apply_h(objs.ref_h(tc), x)
+        return ref_apply_h(objs.ref_h(tc), x, stat)
     if kind in objs.ALIGN_KINDS:
-        return objs.ref_apply_h(t_built.h_matrix.copy(), x)
+        if t_built is None or type(t_built).__name__ != kind:
+            t_built = objs.build_transform(tc)
+        return ref_apply_h(t_built.h_matrix.copy(), x, stat, affine=True)
     if kind == "WithDims":
         dims = tc["dims"]
         if tc["form"] == "int":
@@ -95,30 +371,134 @@ def ref_eval(tc, t_built, x):
             cols = [i for i, b in enumerate(dims) if b]
         else:
             cols = list(dims)
-        return np.array([[row[k] for k in cols] for row in np.asarray(x)], dtype=float).reshape(len(x), len(cols))
+        x = np.asarray(x)
+        return np.array([[row[k] for k in cols] for row in x], dtype=float).reshape(len(x), len(cols))
     if kind == "TransformChain":
-        y = np.asarray(x, dtype=float)
-        for m, mb in zip(tc["members"], t_built.transforms):
-            y = ref_eval(m, mb, y)
-            if y is None:
-                return None
-        return y
+        # sequential application, member by member
+        built = getattr(t_built, "transforms", None)
+        if not isinstance(built, list) or len(built) != len(tc["members"]):
+            built = [None] * len(tc["members"])
+        y = np.asarray(x)
+        for m, mb in zip(tc["members"], built):
+            z = ref_eval(m, mb, y, stat)
+            if z is None:
+                # no independent model of this member (TPS / PWA): a freshly built twin of the member alone
+                z = objs.build_transform(m).apply(np.array(y))
+                stat["twin"] = True
+            y = z
+        return np.asarray(y, dtype=float)
     return None
 
 
-def _build_shape_int(case):
-    """objs.build_shape, with the coordinates of marked (sub)shapes rounded and stored as int64."""
-    lms = case.get("lms", [])
-    base = dict(case)
-    base["lms"] = []
-    if case.get("int"):
-        base["pts"] = [[float(round(v)) for v in row] for row in case["pts"]]
-    s = objs.build_shape(base)
-    if case.get("int"):
-        s.points = np.array(base["pts"]).astype(np.int64)
-    for nm, sub in lms:
-        s.landmarks[nm] = _build_shape_int(sub)
-    return s
+def new_stat():
+    return {"minw": 1.0, "twin": False, "amp": 0.0}
+
+
+# ==============================================================================================
+# the core: one application of a transform to a shape, judged
+
+
+def apply_core(ctx, shape, t, bs, ref, tol_ref, sig=""):
+    """t.apply(shape, batch_size=bs) against: the bare array, the reference `ref(array) -> array | None`, landmark
+    groups at any depth, carried structure, non-aliasing.  Returns (result, result on the bare array, scale, moved).
+    Non-mutation of shape and transform is judged by the caller after ITS further applications."""
+    bare = shape.points.copy()
+    d_struct = structure_digest(shape)
+
+    r = t.apply(shape, batch_size=bs)
+    on_array = t.apply(bare, batch_size=bs)
+
+    ctx.expect(type(r) is type(shape), sig + "result_class", "%s -> %s" % (type(shape).__name__, type(r).__name__))
+    ctx.expect(r is not shape, sig + "result_is_input", "")
+    scale = 1.0 + float(np.abs(on_array).max()) if on_array.size else 1.0
+    ctx.expect(close(r.points, on_array, rtol=0, atol=1e-12 * scale), sig + "points_vs_bare_array", lambda: describe(r.points, on_array))
+    ctx.expect(np.array_equal(bare, shape.points), sig + "input_points_mutated", "")
+    stat = new_stat()
+    want = ref(bare, stat)
+    if want is not None:
+        if stat["minw"] >= 1e-4:
+            ctx.expect(close(r.points, want, rtol=0, atol=tol_ref * max(scale, stat["amp"])), sig + "points_vs_reference", lambda: describe(r.points, want))
+            ctx.event("independent reference" + (" (chain member twins)" if stat["twin"] else ""))
+        else:
+            ctx.event("near a pole of a perspective map: numbers not judged")
+    moved = r.points.shape != bare.shape or not np.allclose(r.points, bare)
+
+    # landmarks at every depth: same names in the same order, same classes, moved by the same map
+    def walk(a, b, prefix):
+        names, rnames = group_names(a), group_names(b)
+        ctx.expect(names == rnames, sig + "landmark_groups", "%s: %r -> %r" % (prefix or "/", names, rnames))
+        for nm in names:
+            if nm not in rnames:
+                continue
+            g, rg = a.landmarks[nm], b.landmarks[nm]
+            p = prefix + "/" + nm
+            deep = ".nested" if prefix else ""
+            ctx.expect(type(g) is type(rg), sig + "landmark_class" + deep, "%s: %s -> %s" % (p, type(g).__name__, type(rg).__name__))
+            wl = t.apply(g.points.copy())
+            gscale = max(scale, 1.0 + float(np.abs(wl).max())) if wl.size else scale  # a group may be larger than the shape
+            ctx.expect(close(rg.points, wl, rtol=0, atol=1e-12 * gscale), sig + "landmarks_vs_bare_array" + deep,
+                       lambda: "group %r\n%s" % (p, describe(rg.points, wl)))
+            st_ = new_stat()
+            wr = ref(g.points, st_)
+            if wr is not None and st_["minw"] >= 1e-4:
+                ctx.expect(close(rg.points, wr, rtol=0, atol=tol_ref * max(gscale, st_["amp"])), sig + "landmarks_vs_reference" + deep,
+                           lambda: "group %r\n%s" % (p, describe(rg.points, wr)))
+            if prefix:
+                ctx.event("nested landmark group checked")
+            walk(g, rg, p)
+
+    walk(shape, r, "")
+
+    # carried structure identical
+    dd = digest.digest_diff(d_struct, structure_digest(r))
+    ctx.expect(dd is None, sig + "structure_changed", lambda: repr(dd))
+    sh = digest.shared_buffers(shape, r)
+    ctx.expect(not sh, sig + "result_shares_buffer_with_input", lambda: repr(sh[:4]))
+    sh = digest.shared_buffers(t, r, skip=_CACHE)
+    ctx.expect(not sh, sig + "result_shares_buffer_with_transform", lambda: repr(sh[:4]))
+    return r, on_array, scale, moved
+
+
+def relocate_into(case, src, trilist, picks):
+    """Every point of the shape case and of its landmark groups (any depth) becomes a convex combination of a source
+    triangle's corners, consuming `picks` in order."""
+    if isinstance(picks, int):
+        # bulk content from a drawn seed: [triangle draw, a, b] per point, a and b quantised in (0, 1)
+        rs = np.random.RandomState(picks)
+        picks = [[int(rs.randint(0, 64)), int(rs.randint(10, 1015)) / 1024.0, int(rs.randint(10, 1015)) / 1024.0]
+                 for _ in range(count_points(case))]
+    picks = list(picks)
+
+    def f(node, depth):
+        n = len(node["pts"])
+        sub = [picks.pop(0) for _ in range(n)]
+        node["pts"] = objs.bary_points(src, trilist, sub).tolist() if n else []
+        return node
+
+    # map_case visits children first; the order only has to be deterministic
+    return map_case(case, f)
+
+
+# ==============================================================================================
+# clause apply
+
+
+@st.composite
+def s_case(draw):
+    d = draw(st.sampled_from([2, 2, 3]))
+    shape = draw(s_shape(d))
+    t = draw(s_transform(d))
+    c = {"shape": shape, "t": t, "batch": draw(st.sampled_from([None, None, 1, 3, "n", "n+5"])),
+         # coordinate storage: float64, or integer-typed (pixel positions) / float32 for the whole shape or only for
+         # its landmark groups
+         "coords": draw(st.sampled_from(["f64"] * 5 + ["int:all", "int:landmarks", "f32:all", "f32:landmarks"])),
+         "mag": draw(st.sampled_from([None] * 6 + ["scale", "offset"])),
+         "inplace_api": draw(st.sampled_from(["_apply_inplace", "_apply_inplace", "apply_inplace"])),
+         "reparam": draw(st.sampled_from(["from_vector", "set_target", "pseudoinverse"])),
+         "reparam_w": draw(st.lists(gen.q(-0.25, 0.25), min_size=16, max_size=16))}
+    if any(m["kind"] in PWA_KINDS for m in members_of(t)):
+        c["picks"] = draw(st.integers(0, 2**16))
+    return c
 
 
 def c_case(c, ctx):
@@ -127,57 +507,71 @@ def c_case(c, ctx):
     ctx.event("shape=%s" % sc["kind"])
     ctx.event("transform=%s" % tc["kind"])
     ctx.event("pair=%s x %s" % (sc["kind"], tc["kind"]))
+    if tc["kind"] == "TransformChain":
+        ctx.event("chain=%s" % chain_class(tc))
     t = objs.build_transform(tc)
-    if tc["kind"] in ("CachedPWA", "PythonPWA"):
+    head = pwa_head(tc, t)
+    if head is not None:
         # move every point of the shape and of its landmark groups into the PWA domain
-        tl = t.trilist
-        picks = list(c["picks"])
+        sc = relocate_into(sc, head[0]["src"], head[1].trilist, c["picks"])
+    coords = c.get("coords", "f64")
+    if coords.startswith("int") and head is not None:
+        coords = "f64"  # rounding would leave the triangulated domain
+    mag = c.get("mag")
+    if mag is not None and not magnitude_safe(tc):
+        mag = None
+    if coords != "f64" or mag is not None:
+        dt, where = (coords.split(":") + [None])[:2] if coords != "f64" else (None, None)
 
-        def relocate(case):
-            n = len(case["pts"])
-            sub = [picks.pop(0) for _ in range(n)]
-            case = dict(case)
-            case["pts"] = objs.bary_points(tc["src"], tl, sub).tolist()
-            if "lms" in case:
-                case["lms"] = [[nm, relocate(sub_case)] for nm, sub_case in case["lms"]]
-            return case
+        def flag(node, depth):
+            if dt is not None and (where == "all" or depth > 0):
+                node["dtype"] = dt
+            if mag is not None:
+                node["mag"] = mag
+            return node
 
-        sc = relocate(sc)
-    ic = c.get("int_coords", "none")
-    if ic != "none" and tc["kind"] not in ("CachedPWA", "PythonPWA"):
-        def to_int(case, top):
-            case = dict(case)
-            if top and "lms" in case:
-                case["lms"] = [[nm, to_int(sub, False)] for nm, sub in case["lms"]]
-            if (not top) or ic == "all":
-                case["int"] = True
-            return case
-
-        sc = to_int(sc, True)
-    shape = _build_shape_int(sc)
-    ctx.event("int_coords=%s" % ic)
+        sc = map_case(sc, flag)
+    shape = build_shape(sc)
+    ctx.event("coords=%s" % coords)
+    ctx.event("magnitude=%s" % (mag or "10"))
     n = shape.n_points
+    ctx.event("n_points=%s" % (n if n < 3 else "3+"))
+    ctx.event("landmark depth=%d" % case_depth(sc))
+    if has_empty(sc):
+        ctx.event("has an empty (sub)shape")
+    if sc["kind"] in MESH_KINDS and not sc["tri"]:
+        ctx.event("empty trilist")
     bs = c["batch"]
-    bs = {"n": n, "n+5": n + 5}.get(bs, bs)
+    bs = {"n": max(n, 1), "n+5": n + 5}.get(bs, bs)
     ctx.event("batch=%s" % c["batch"])
+    tol_ref = 1e-5 if coords.startswith("f32") else 1e-9
 
-    bare = shape.points.copy()
     d_shape = digest.digest(shape)
     d_t = digest.digest(t, skip=_CACHE)
-    d_struct = structure_digest(shape)
+    bare0 = shape.points.copy()
 
-    r = t.apply(shape, batch_size=bs)
-    on_array = t.apply(bare, batch_size=bs)
+    def ref(x, stat):
+        return ref_eval(tc, t, x, stat)
 
-    ctx.expect(type(r) is type(shape), "result_class", "%s -> %s" % (type(shape).__name__, type(r).__name__))
-    scale = 1.0 + float(np.abs(on_array).max()) if on_array.size else 1.0
-    bare0 = bare.copy()
+    try:
+        r, on_array, scale, moved = apply_core(ctx, shape, t, bs, ref, tol_ref)
+    except ValueError as e:
+        if has_empty(sc) and any(m["kind"] == "WithDims" for m in members_of(tc)):
+            # defect fixed in /repo e938e22: WithDims could not slice a 0-point array (shape or landmark group),
+            # batched or not (a refusal of the batched route only is another root cause: let it escape)
+            try:
+                t.apply(shape)
+            except ValueError:
+                ctx.fail("withdims.zero_point_shape_refused", "%s: %s" % (type(e).__name__, e))
+                return
+        raise
+
     # "applying the transform to the bare coordinate array gives the same numbers" must also hold when the caller
     # re-uses its buffer: refill the very array that was applied with other coordinates of the same shape (the
     # rows reversed and nudged, still inside the domain for piecewise-affine maps) and apply again; a fresh
     # instance of the same transform applied to the same values is the history-free reference
-    if bare.shape[0] >= 2:
-        refill = 0.75 * bare[::-1] + 0.25 * bare  # convex combinations of in-domain points: still in the (convex) domain
+    if bare0.shape[0] >= 2:
+        refill = 0.75 * bare0[::-1] + 0.25 * bare0  # convex combinations of in-domain points: still in the (convex) domain
         fresh = objs.build_transform(tc)
         try:
             want2 = fresh.apply(refill.copy())
@@ -193,34 +587,52 @@ def c_case(c, ctx):
             ctx.expect(close(got3, on_array, rtol=0, atol=1e-12 * scale), "reused_buffer_gives_stale_result",
                        lambda: "array refilled in place and applied again\n" + describe(got3, on_array))
             ctx.event("buffer reuse checked")
-    bare = bare0
-    ctx.expect(close(r.points, on_array, rtol=0, atol=1e-12 * scale), "points_vs_bare_array", lambda: describe(r.points, on_array))
-    want = ref_eval(tc, t, bare)
-    if want is not None:
-        ctx.expect(close(r.points, want, atol=1e-9 * scale), "points_vs_reference", lambda: describe(r.points, want))
-        ctx.event("independent reference")
-    moved = r.points.shape != bare.shape or not np.allclose(r.points, bare)
 
-    # landmarks moved by the same map, same classes, same order
-    names = list(shape.landmarks.keys()) if shape.has_landmarks else []
-    rnames = list(r.landmarks.keys()) if r.has_landmarks else []
-    ctx.expect(names == rnames, "landmark_groups", "%r -> %r" % (names, rnames))
-    for nm in names:
-        if nm not in rnames:
-            continue
-        g, rg = shape.landmarks[nm], r.landmarks[nm]
-        ctx.expect(type(g) is type(rg), "landmark_class", "%s -> %s" % (type(g).__name__, type(rg).__name__))
-        wl = t.apply(g.points.copy())
-        ctx.expect(close(rg.points, wl, rtol=0, atol=1e-12 * scale), "landmarks_vs_bare_array", lambda: "group %r\n%s" % (nm, describe(rg.points, wl)))
-        wr = ref_eval(tc, t, g.points)
-        if wr is not None:
-            ctx.expect(close(rg.points, wr, atol=1e-9 * scale), "landmarks_vs_reference", lambda: "group %r\n%s" % (nm, describe(rg.points, wr)))
+    # the destructive entry points: Transform._apply_inplace(copy) and the deprecated public apply_inplace(copy)
+    # leave in the copy exactly what apply() returns, and return nothing (docstring)
+    api = c.get("inplace_api", "_apply_inplace")
+    cp = shape.copy()
+    ret = getattr(t, api)(cp)
+    plain = r if bs is None else t.apply(shape)
+    ctx.expect(ret is None, "apply_inplace.returns_something", lambda: "%s returned %s" % (api, type(ret).__name__))
+    dd = digest.public_diff(plain, cp, rtol=0, atol=1e-12 * scale)
+    ctx.expect(dd is None, "apply_inplace.differs_from_apply", lambda: "%s: %s" % (api, dd))
+    ctx.event("inplace api=%s" % api)
 
-    # carried structure identical
-    dd = digest.digest_diff(d_struct, structure_digest(r))
-    ctx.expect(dd is None, "structure_changed", lambda: repr(dd))
+    # the landmark manager is itself Transformable: same groups in the same order, same classes, the same points as
+    # the groups of the transformed shape; the manager handed in stays as it was (judged below with the shape)
+    mgr = shape.landmarks
+    rm = t.apply(mgr, batch_size=bs)
+    ctx.expect(type(rm) is type(mgr), "manager.result_class", lambda: type(rm).__name__)
+    ctx.expect(rm is not mgr, "manager.result_is_input", "")
+    ctx.expect(list(rm.keys()) == group_names(r) == group_names(shape), "manager.groups", lambda: "%r vs %r" % (list(rm.keys()), group_names(r)))
+    for nm in group_names(shape):
+        if nm in rm and nm in group_names(r):
+            dd = digest.public_diff(rm[nm], r.landmarks[nm], rtol=0, atol=1e-12 * scale)
+            ctx.expect(dd is None, "manager.group_differs_from_shape_route", lambda: "group %r: %s" % (nm, dd))
+            ctx.expect(not digest.shared_buffers(rm[nm], mgr[nm]), "manager.result_shares_buffer_with_input", nm)
+    if group_names(shape):
+        ctx.event("manager applied")
 
-    # nothing mutated, nothing shared
+    # other entry points of the same operation
+    if tc["kind"] == "WithDims":
+        w = shape.with_dims(objs.build_transform(tc).dims)
+        dd = digest.public_diff(w, r)
+        ctx.expect(dd is None, "with_dims.differs_from_WithDims_apply", lambda: str(dd))
+        ctx.event("with_dims checked")
+    if tc["kind"] in objs.ALIGN_KINDS:
+        src_before = t.source.points.copy()
+        a = t.aligned_source()
+        stat = new_stat()
+        wa = ref_apply_h(t.h_matrix.copy(), src_before, stat, affine=True)
+        ctx.expect(type(a) is type(t.source), "aligned_source.class", lambda: type(a).__name__)
+        ctx.expect(a is not t.source and not np.shares_memory(a.points, t.source.points), "aligned_source.aliases_source", "")
+        ctx.expect(close(a.points, wa, rtol=0, atol=1e-9 * (1.0 + float(np.abs(wa).max()))), "aligned_source.points",
+                   lambda: describe(a.points, wa))
+        ctx.expect(np.array_equal(t.source.points, src_before), "aligned_source.source_mutated", "")
+        ctx.event("aligned_source checked")
+
+    # nothing mutated
     dd = digest.parameter_mutation(d_shape, digest.digest(shape))
     ctx.expect(dd is None, "input_shape_mutated", lambda: repr(dd))
     dd = digest.parameter_mutation(d_t, digest.digest(t, skip=_CACHE))
@@ -253,7 +665,7 @@ def c_case(c, ctx):
                 t2 = t.pseudoinverse()
         except NotImplementedError:
             t2 = None  # not vectorizable in this dimension (documented)
-        if t2 is not None:
+        if t2 is not None and mag is None and bare0.shape[0]:
             ctx.event("reparam=%s" % how)
             x = bare0.copy()
             got = t2.apply(x)
@@ -262,17 +674,242 @@ def c_case(c, ctx):
             if np.all(np.isfinite(want)) and sc2 < 1e6:
                 ctx.expect(close(got, want, rtol=0, atol=1e-9 * sc2), "apply_after_reparametrisation_uses_stale_state." + how,
                            lambda: "%s: apply disagrees with the transform's own h_matrix\n%s" % (tc["kind"], describe(got, want)))
-    ctx.expect(np.array_equal(bare, shape.points), "input_points_mutated", "")
-    sh = digest.shared_buffers(shape, r)
-    ctx.expect(not sh, "result_shares_buffer_with_input", lambda: repr(sh[:4]))
-    sh = digest.shared_buffers(t, r, skip=_CACHE)
-    ctx.expect(not sh, "result_shares_buffer_with_transform", lambda: repr(sh[:4]))
 
     structured = sc["kind"] != "PointCloud"
-    ctx.nontrivial(moved and (bool(names) or structured))
+    ctx.nontrivial(moved and (bool(group_names(shape)) or structured))
+
+
+# ==============================================================================================
+# clause refusal: a refused application leaves the transform as it was
+
+
+@st.composite
+def s_refusal(draw):
+    pwa = draw(objs.warp_case(kind=draw(st.sampled_from(["CachedPWA", "CachedPWA", "PythonPWA"]))))
+    wrap = draw(st.sampled_from(["bare", "bare", "chain", "nested"]))
+    if wrap == "bare":
+        tc = pwa
+    else:
+        tail = [draw(objs.homog_case(d=2)) for _ in range(draw(st.integers(1, 2)))]
+        head = pwa if wrap == "chain" else {"kind": "TransformChain", "d": 2, "members": [pwa]}
+        tc = {"kind": "TransformChain", "d": 2, "members": [head] + tail}
+    ops = []
+    for k in range(draw(st.integers(2, 3))):
+        sh = draw(s_shape(2, small_ok=False) if draw(st.integers(0, 3)) == 0 else objs.shape_case(d=2, n_max=6))
+        op = {"shape": sh, "picks": draw(st.integers(0, 2**16)), "out": None}
+        # operand 0 lies in the domain, operand 1 has points outside, a third one is either
+        if k == 1 or (k == 2 and draw(st.booleans())):
+            op["out"] = {"where": draw(st.sampled_from([-1, -1, 0, 1, 2, 3])),  # -1 (and anything without groups): the shape's own points
+                         "rows": draw(st.lists(st.integers(0, 8), min_size=1, max_size=3)),
+                         "angle": draw(gen.q(-3.14, 3.14)), "far": draw(gen.q(1.5, 4))}
+        ops.append(op)
+    step = st.fixed_dictionaries({"op": st.sampled_from([0, 1, 1, 2]), "as": st.sampled_from(["shape", "shape", "array"]),
+                                  "batch": st.sampled_from([None, None, 2, "n"])})
+    # by construction some application follows a refused one: operand 1 applied as a shape is always refused
+    pre = draw(st.lists(step, min_size=0, max_size=3))
+    post = draw(st.lists(step, min_size=1, max_size=4))
+    mid = {"op": 1, "as": "shape", "batch": draw(st.sampled_from([None, None, 2, "n"]))}
+    return {"t": tc, "ops": ops, "steps": pre + [mid] + post}
+
+
+def _push_outside(case, out, src):
+    """Move the chosen rows of the chosen (sub)shape far outside the source points' bounding box."""
+    src = np.asarray(src, dtype=float)
+    lo, hi = src.min(axis=0), src.max(axis=0)
+    centre, diag = (lo + hi) / 2.0, float(np.linalg.norm(hi - lo))
+    p = (centre + out["far"] * diag * np.array([math.cos(out["angle"]), math.sin(out["angle"])])).tolist()
+    nodes = []
+
+    def collect(node, path):
+        nodes.append((path, node))
+        for nm, sub in node.get("lms", []):
+            collect(sub, path + "/" + nm)
+
+    collect(case, "")
+    nodes = [(path, node) for path, node in nodes if node["pts"]]  # the shape itself always has points
+    if out["where"] < 0 or len(nodes) == 1:
+        path, node = nodes[0]
+    else:
+        path, node = nodes[1 + out["where"] % (len(nodes) - 1)]
+    for rrow in out["rows"]:
+        node["pts"][rrow % len(node["pts"])] = list(p)
+    return path
+
+
+def _outcome(t, x, bs):
+    """("ok", [points, group points ...]) or ("refused", mask)."""
+    try:
+        r = t.apply(x, batch_size=bs)
+    except TriangleContainmentError as e:
+        return "refused", [np.asarray(e.points_outside_source_domain)], None
+    if isinstance(r, np.ndarray):
+        return "ok", [r], r
+    return "ok", [r.points] + [g.points for _, g in all_groups(r)], r
+
+
+def c_refusal(c, ctx):
+    tc = c["t"]
+    t = objs.build_transform(tc)
+    head_case, head_built = pwa_head(tc, t)
+    ctx.event("transform=%s%s" % (head_case["kind"], "" if tc is head_case else " in chain"))
+    shapes, outside_in = [], []
+    for op in c["ops"]:
+        sc = relocate_into(op["shape"], head_case["src"], head_built.trilist, op["picks"])
+        where = None
+        if op["out"] is not None:
+            sc = map_case(sc, lambda node, depth: dict(node, pts=[list(p) for p in node["pts"]]))
+            where = _push_outside(sc, op["out"], head_case["src"])
+        shapes.append(build_shape(sc))
+        outside_in.append(where)
+    d_ops = [digest.digest(s) for s in shapes]
+    d_t = digest.digest(t, skip=_CACHE)
+    history, refused_before, pattern = [], False, False
+    for k, stp in enumerate(c["steps"]):
+        i = stp["op"] % len(shapes)
+        s = shapes[i]
+        x = s if stp["as"] == "shape" else s.points.copy()
+        bs = s.n_points if stp["batch"] == "n" else stp["batch"]
+        # by construction: refused iff the points that take part contain a row pushed outside the source mesh
+        expect_refused = outside_in[i] is not None and (stp["as"] == "shape" or outside_in[i] == "")
+        got = _outcome(t, x, bs)
+        want = _outcome(objs.build_transform(tc), s if stp["as"] == "shape" else s.points.copy(), bs)
+        what = "step %d (%s of operand %d, batch %s) after %s" % (k, stp["as"], i, bs, history or "nothing")
+        ctx.expect(want[0] == ("refused" if expect_refused else "ok"), "refusal.fresh_transform_status_unexpected",
+                   lambda: "%s: fresh transform says %s" % (what, want[0]))
+        if refused_before:
+            ctx.nontrivial(True)
+        sig = "refusal.behaviour_differs_from_fresh_transform_after_a_refused_apply" if refused_before else "refusal.behaviour_differs_from_fresh_transform"
+        same = got[0] == want[0] and len(got[1]) == len(want[1])
+        if same:
+            if got[0] == "ok":
+                scale = 1.0 + max([float(np.abs(a).max()) for a in want[1] if a.size] or [0.0])
+                same = all(close(a, b, rtol=0, atol=1e-12 * scale) for a, b in zip(got[1], want[1]))
+            else:
+                same = all(a.shape == b.shape and np.array_equal(a, b) for a, b in zip(got[1], want[1]))
+        ctx.expect(same, sig, lambda: "%s\n used : %s %s\n fresh: %s %s" % (
+            what, got[0], [np.array2string(a, precision=4, threshold=12) for a in got[1]][:2],
+            want[0], [np.array2string(a, precision=4, threshold=12) for a in want[1]][:2]))
+        if got[0] == "ok" and stp["as"] == "shape":
+            ctx.expect(type(got[2]) is type(s), "refusal.result_class", lambda: type(got[2]).__name__)
+        if history and history[-1] == "%d:refused" % i and refused_before:
+            pattern = True
+        history.append("%d:%s" % (i, got[0]))
+        refused_before = refused_before or want[0] == "refused"
+    if pattern:
+        ctx.event("a refused operand applied again straight away")
+    for i, s in enumerate(shapes):
+        dd = digest.parameter_mutation(d_ops[i], digest.digest(s))
+        ctx.expect(dd is None, "refusal.operand_mutated", lambda: "operand %d: %r" % (i, dd))
+    dd = digest.parameter_mutation(d_t, digest.digest(t, skip=_CACHE))
+    ctx.expect(dd is None, "refusal.transform_parameters_mutated", lambda: repr(dd))
+
+
+# ==============================================================================================
+# clause about_centre: the factories that build a transform FROM a shape, applied to that shape
+
+
+@st.composite
+def s_about(draw):
+    fac = draw(st.sampled_from(["scale", "rotate", "shear", "transform", "transform"]))
+    d = 2 if fac in ("rotate", "shear") else draw(st.sampled_from([2, 2, 3]))
+    c = {"factory": fac, "shape": draw(s_shape(d, small_ok=False)), "batch": draw(st.sampled_from([None, None, 1, 3, "n+5"])),
+         "mag": draw(st.sampled_from([None, None, None, "offset"]))}
+    if fac == "scale":
+        c["s"] = draw(gen.q(0.25, 4))
+    elif fac == "rotate":
+        c["degrees"] = draw(st.booleans())
+        c["theta"] = draw(gen.angle_deg()) if c["degrees"] else draw(gen.q(-7, 7))
+    elif fac == "shear":
+        c["degrees"] = draw(st.booleans())
+        lim = 60.0 if c["degrees"] else 1.0
+        c["phi"], c["psi"] = draw(gen.q(-lim, lim)), draw(gen.q(-lim, lim))
+    else:
+        kinds = list(objs.HOMOG_KINDS) + ["TransformChain"] + (["ThinPlateSplines"] if d == 2 else [])
+        c["inner"] = draw(objs.transform_case(d=d, kinds=kinds))
+    return c
+
+
+def c_about(c, ctx):
+    import menpo.transform as mt
+    from menpo.transform import compositions as comp
+
+    fac = c["factory"]
+    sc = c["shape"]
+    mag = c.get("mag")
+    inner_case = c.get("inner")
+    if mag is not None and inner_case is not None and not magnitude_safe(inner_case):
+        mag = None
+    if mag is not None:
+        sc = map_case(sc, lambda node, depth: dict(node, mag=mag))
+    shape = build_shape(sc)
+    d = sc["d"]
+    n = shape.n_points
+    bs = {"n+5": n + 5}.get(c["batch"], c["batch"])
+    ctx.event("factory=%s%s" % (fac, ":" + inner_case["kind"] if inner_case else ""))
+    ctx.event("shape=%s" % sc["kind"])
+    ctx.event("magnitude=%s" % (mag or "10"))
+    d_shape = digest.digest(shape)
+    # the centre (mean of the points), by plain loops
+    centre = [sum(float(p[k]) for p in shape.points) / n for k in range(d)]
+    inner = None
+    if fac == "scale":
+        t = comp.scale_about_centre(shape, c["s"])
+        lin = [[c["s"] if i == j else 0.0 for j in range(d)] for i in range(d)]
+    elif fac == "rotate":
+        t = comp.rotate_ccw_about_centre(shape, c["theta"], degrees=c["degrees"])
+        th = math.radians(c["theta"]) if c["degrees"] else c["theta"]
+        lin = [[math.cos(th), -math.sin(th)], [math.sin(th), math.cos(th)]]
+    elif fac == "shear":
+        t = comp.shear_about_centre(shape, c["phi"], c["psi"], degrees=c["degrees"])
+        a, b = (math.radians(c["phi"]), math.radians(c["psi"])) if c["degrees"] else (c["phi"], c["psi"])
+        lin = [[1.0, math.tan(a)], [math.tan(b), 1.0]]
+    else:
+        inner = objs.build_transform(inner_case)
+        d_inner = digest.digest(inner, skip=_CACHE)
+        t = comp.transform_about_centre(shape, inner)
+        lin = None
+    if lin is not None:
+        ctx.expect(isinstance(t, mt.Homogeneous), "about_centre.not_homogeneous", lambda: type(t).__name__)
+    twin = objs.build_transform(inner_case) if inner_case else None
+
+    def ref(x, stat):
+        """translate the centre to the origin, transform, translate back (docstring), by loops"""
+        x = np.asarray(x, dtype=float)
+        y = np.array([[x[i, k] - centre[k] for k in range(d)] for i in range(x.shape[0])]).reshape(x.shape[0], d)
+        if lin is not None:
+            z = np.array([[sum(lin[r][k] * y[i, k] for k in range(d)) for r in range(d)] for i in range(y.shape[0])]).reshape(y.shape[0], d)
+        else:
+            z = ref_eval(inner_case, twin, y, stat)
+            if z is None:
+                z = twin.apply(y)
+                stat["twin"] = True
+        return np.array([[z[i, k] + centre[k] for k in range(d)] for i in range(z.shape[0])]).reshape(z.shape[0], d)
+
+    d_t = digest.digest(t, skip=_CACHE)
+    r, on_array, scale, moved = apply_core(ctx, shape, t, bs, ref, 1e-9, sig="about_centre.")
+    if lin is not None:
+        # "about its centre": the centre is a fixed point of the map, so the centre of the result is the old centre
+        rc = [sum(float(p[k]) for p in r.points) / n for k in range(d)]
+        ctx.expect(close(rc, centre, rtol=0, atol=1e-9 * scale), "about_centre.centre_moved", lambda: "%r -> %r" % (centre, rc))
+    dd = digest.parameter_mutation(d_shape, digest.digest(shape))
+    ctx.expect(dd is None, "about_centre.input_shape_mutated", lambda: repr(dd))
+    dd = digest.parameter_mutation(d_t, digest.digest(t, skip=_CACHE))
+    ctx.expect(dd is None, "about_centre.transform_mutated", lambda: repr(dd))
+    if inner is not None:
+        dd = digest.parameter_mutation(d_inner, digest.digest(inner, skip=_CACHE))
+        ctx.expect(dd is None, "about_centre.inner_transform_mutated", lambda: repr(dd))
+    ctx.nontrivial(moved and (bool(group_names(shape)) or sc["kind"] != "PointCloud"))
 
 
 CLAUSES = [
-    Clause("apply", c_case, s_case, quick=6000, thorough=150000, nt_floor=0.5,
+    Clause("apply", c_case, s_case, quick=5000, thorough=150000, nt_floor=0.5,
            rule="shape class x transform class x batch size; see RULE"),
+    Clause("refusal", c_refusal, s_refusal, quick=500, thorough=12000, nt_floor=0.5,
+           rule="3-7 applications of one piecewise-affine transform (bare, or leading a chain) to 2-3 operands of which at "
+                "least one has points outside the source mesh, as shape or bare array, batched or not; every outcome "
+                "(result or refusal mask) equals that of a freshly built identical transform; non-trivial: some "
+                "application follows a refused one"),
+    Clause("about_centre", c_about, s_about, quick=500, thorough=12000, nt_floor=0.5,
+           rule="scale / rotate_ccw / shear / transform_about_centre built from the shape and applied to it; reference: "
+                "subtract the mean, apply the inner map (independent matrix), add the mean"),
 ]
